@@ -4,6 +4,7 @@ package main
 // in topological order, path-insensitive (block path conditions), one named constant per register.
 
 import (
+	"regexp"
 	"fmt"
 	"go/constant"
 	"go/token"
@@ -624,6 +625,9 @@ func (vc *VC) litContent(n, s string) {
 	vc.prog.litOf[n] = s
 }
 
+// a term that mentions a quantifier variable (q_name) or the parameter of a closed predicate (x!k)
+var reBoundVar = regexp.MustCompile(`(^|[ (])(q_[A-Za-z0-9_]+|x![0-9]+)([ )]|$)`)
+
 // streq: Go string equality. Against a literal it is expanded (ground extensionality instance).
 func (vc *VC) streq(a, b string) string {
 	if a == b {
@@ -651,6 +655,11 @@ func (vc *VC) streq(a, b string) string {
 		}
 		exp := and(facts...)
 		eq := fmt.Sprintf("(= %s %s)", b, a)
+		if reBoundVar.MatchString(b) {
+			// b mentions a bound variable (quantifier / closed-predicate parameter): the ground instance cannot be
+			// stated outside its binder; plain equality is what remains
+			return eq
+		}
 		vc.assert(fmt.Sprintf("(= %s %s)", eq, exp))
 		return eq
 	}
@@ -1952,7 +1961,11 @@ func (f *Frame) frameFormula(s *State, comp string) string {
 		}
 		excl = append(excl, fmt.Sprintf("(not (= r %s))", m))
 	}
-	guard := and(append([]string{"(<= 0 r)", fmt.Sprintf("(< r %s)", r.entry.alloc)}, excl...)...)
+	lo := "(<= 0 r)"
+	if strings.HasPrefix(comp, "E ") {
+		lo = "(< 0 r)" // array id 0 is the array of nil / zero-capacity slices: it has no elements to keep
+	}
+	guard := and(append([]string{lo, fmt.Sprintf("(< r %s)", r.entry.alloc)}, excl...)...)
 	return fmt.Sprintf("(forall ((r Int)) (! (=> %s (= (select %s r) (select %s r))) :pattern ((select %s r))))", guard, now, init, now)
 }
 
